@@ -262,6 +262,15 @@ def general(run, h, rng, proc):
             exp = np.sqrt((p["ns"].amplitude + p["ew"].amplitude) / p["vt"].amplitude)
             if not np.allclose(d.amplitude, exp, rtol=1e-9):
                 run.violation("psd:diffuse-field", f"{key} smoothing={sm['operator']}: diffuse-field HVSR differs from sqrt((S(Pns)+S(Pew))/S(Pvt))", rep)
+            # a ratio of densities: unchanged when all three components are multiplied by one factor, however small or large
+            # (2^-45 ~ 3e-14: ground velocity in m/s; the densities themselves are ~1e-27)
+            for kx in (-45, 40):
+                recs_x = [h.SeismicRecording3C(ts(w * 2.0 ** kx, dt), ts(w * 0.5 * 2.0 ** kx, dt), ts(w[::-1] * 2.0 ** kx, dt)) for w in wins]
+                df_x = h.HvsrDiffuseFieldProcessingSettings(window_type_and_width=["tukey", width], smoothing=dict(sm), fft_settings={"n": None} if pad == "samples" else {"n": 32768})
+                dx = proc(recs_x, df_x)
+                if not np.array_equal(dx.amplitude, d.amplitude):
+                    run.violation("psd:diffuse-field:scale", f"{key} smoothing={sm['operator']}: multiplying all components by 2^{kx} changes the diffuse-field HVSR "
+                                  f"(max rel diff {np.max(np.abs(dx.amplitude - d.amplitude) / d.amplitude):.2e})", rep)
         run.case(("gen", t), sample=dict(n=n, fs=fs, taper=width, windows=W, nfft=nfft, parseval_lhs=float(lhs), parseval_rhs=float(rhs)) if t == 0 else None)
 
 
